@@ -10,7 +10,11 @@ import FFVerif.Props.C04
 import FFVerif.Props.C05
 import FFVerif.Props.C06
 import FFVerif.Props.C07
+import FFVerif.Props.C09
 import FFVerif.Props.C19
+import FFVerif.Gen.MeanStress
+import FFVerif.Gen.Wave
+import FFVerif.Gen.Wind
 open FF FF.Proto
 
 def counterByName (n : String) : Option (List Int → List Cyc) :=
@@ -26,8 +30,23 @@ def counterByName (n : String) : Option (List Int → List Cyc) :=
 
 def showFail (l : List String) : String := if l.isEmpty then "ok" else "fail:" ++ ",".intercalate l
 
+def parseFloats (l : List String) : Option (Array Float) :=
+  (l.mapM (fun (s : String) => s.toNat?.map (fun n => Float.ofBits n.toUInt64))).map List.toArray
+
+def showGen (r : Option (Float × Bool)) : Option String :=
+  r.map (fun p => s!"{p.1.toBits.toNat} {if p.2 then 1 else 0}")
+
 def handle (toks : List String) : Option String :=
   match toks with
+  | "gen" :: "MeanStress" :: name :: args => do showGen (Gen.evalMeanStress name (← parseFloats args))
+  | "gen" :: "Wave" :: name :: args => do showGen (Gen.evalWave name (← parseFloats args))
+  | "gen" :: "Wind" :: name :: args => do showGen (Gen.evalWind name (← parseFloats args))
+  | "c09lin" :: args => do
+    let a ← parseFloats args
+    if a.size = 5 then some s!"{(C09.linearResidual a[0]! a[1]! a[2]! a[3]! a[4]!).toBits.toNat}" else none
+  | "c09ger" :: args => do
+    let a ← parseFloats args
+    if a.size = 5 then some s!"{(C09.gerberResidual a[0]! a[1]! a[2]! a[3]! a[4]!).toBits.toNat}" else none
   | ["pv", k, h] => do
     let h ← parseList h
     some (showList (pv (k == "1") h))
